@@ -215,6 +215,36 @@ def _try(ev: Evaluator, fi: FuncInfo, args, kwargs=None):
         return ("passed-guard", None)
 
 
+def fill_conformal(repo: Repo, r: RuleRun) -> None:
+    from .. import sketches
+    from ..model import ClassInfo
+
+    cyl = repo.cls("construct.shapes.cylinder.Cylinder")
+    fill = repo.func("construct.shapes.cylinder.Cylinder.fill")
+    sk = repo.class_var(cyl, "sketch_class")
+    sk_cls = repo.resolve_expr(sk[1].module, sk[0]) if sk is not None else None
+    r.require(isinstance(sk_cls, ClassInfo), "Cylinder.sketch_class does not name a sketch class")
+    n_outer = sum(1 for _, _, role in sketches.face_roles(repo, sk_cls) if role == "shell")
+    wrong_fill = []
+    for n_seg in range(1, 33):
+        src = Obj("ring")
+        src.set("sketch_1", Obj("annulus_1", n_segments=n_seg, center=Sym("c1"), inner_radius_point=Sym("rp")))
+        src.set("sketch_2", Obj("annulus_2", n_segments=n_seg, center=Sym("c2"), inner_radius_point=Sym("rp2")))
+        res = _try(Evaluator(repo=repo, module=fill.module), fill, [Sym("cls"), src])
+        rejected = _raised(res) is not None
+        if rejected == (n_seg == n_outer):
+            wrong_fill.append((n_seg, "rejected" if rejected else "accepted"))
+    r.check(
+        not wrong_fill,
+        fill,
+        f"rings of 1..32 segments: accepted iff {n_outer} (= outer faces of {sk_cls.name})",
+        f"Cylinder.fill: {wrong_fill[:6]} - the filling {sk_cls.name} has {n_outer} outer faces, so only a ring of {n_outer} segments shares all interface vertices with it; "
+        "any other accepted count leaves hanging vertices on the interface",
+        fill.node,
+        key="fill:segments",
+    )
+
+
 def guard_eval(repo: Repo) -> RuleRun:
     r = RuleRun(PROP, "C20.GUARD-EVAL", floor=40, what="abstract evaluation of integer / life-cycle guards on both sides of each boundary")
     r.exhaustive = True
@@ -301,6 +331,8 @@ def guard_eval(repo: Repo) -> RuleRun:
         expect(gac, res, bad, f"length_ratio={ratio}", ("ValueError",))
         if bad:
             r.check(gr.get("specification") == [], gac, "nothing appended on rejection", "Grading.add_chop appends a division before rejecting the length ratio", key=f"length_ratio={ratio}:state")
+    # Cylinder.fill: the filling cylinder's sketch has a fixed number of outer faces; a ring is accepted iff it has as many
+    fill_conformal(repo, r)
     # Junction.add_clamp twice
     jac = repo.func("optimize.junction.Junction.add_clamp")
     j = Obj("junction", cls=repo.cls("optimize.junction.Junction"))
